@@ -371,7 +371,9 @@ def judge_output(case, out, findings):
             k = 0
             while k < min(len(e_nb), len(span)) and e_nb[k] == span[k]:
                 k += 1
-            findings.append(("region-lines|%s" % reg["flavor"], "region %s: non-blank line %d differs: in %r out %r (%d lines in, %d out)"
+            # a region whose own text mentions the end of an asm region: a cause of its own (recorded finding), keyed apart from every other difference
+            cause = "endasm-text|" if any(b"endasm" in x for x in e_nb) and reg["flavor"] == FLAVORS[0][0] else ""
+            findings.append(("region-lines|%s%s" % (cause, reg["flavor"]), "region %s: non-blank line %d differs: in %r out %r (%d lines in, %d out)"
                              % (reg["tag"], k + 1, e_nb[k][:60] if k < len(e_nb) else None, span[k][:60] if k < len(span) else None, len(e_nb), len(g_nb))))
         elif lo == 0 and not extra_after and [canon(l) for l in exp] != [canon(l) for l in body]:
             def core(ls):
@@ -588,6 +590,16 @@ def run(rep, build, tier, seed):
             for a in c.alts:
                 a.base_data = c.data
             cases.append(c)
+    # region text that mentions the end of a '#pragma asm' region although the region was opened by a marker comment (side remark of a round-5
+    # seeding agent, reproduced: parse_ignored() re-enables processing on '#endasm' / '#pragma ... endasm' whatever opened the region)
+    for k, body in enumerate([["int   b ;", "#endasm", "int   c ;"], ["int   b ;", "// see #pragma asm and endasm in the docs", "int   c ;"]]):
+        name, fcfg, mk_off, mk_on, ontext = FLAVORS[0]
+        tag = "TAGE%dx0" % k
+        text = "int a;\n%s\n%s\n%s\nint d;\n" % (mk_off(tag), "\n".join(body), mk_on(tag))
+        c = RCase("endasm-text:%d" % k, "C", "\n".join(list(fcfg)) + "\n", text.encode("utf-8"))
+        c.regions, c.flavor, c.ontext = [{"tag": tag, "body": body, "open_end": False, "flavor": name}], name, ontext
+        c.alts = []
+        cases.append(c)
     cases += corpus_wrapped(r, nw)
     stats = {"rc": {}}
     corr = explore(rep, cases, r, stats)
